@@ -160,6 +160,8 @@ type c17Shape struct {
 	script func() *peer.SenderScript
 	dst    tm.Tree
 	want   tm.Tree
+	// totalSize, if non-zero: the total the scripted sender's statistics carry (judged against the client's result)
+	totalSize int64
 }
 
 func c17Shapes(tier string) []c17Shape {
@@ -201,8 +203,22 @@ func c17Shapes(tier string) []c17Shape {
 	bigFiles := map[string][]byte{"big": genData(famHash, 600*1024, 3)}
 	bb, bw := mk(bigFiles, nil)
 	shapes = append(shapes, c17Shape{name: "big-file", script: bb, want: bw})
+	// a listing whose entries and statistics need the 64-bit integer encoding (marker + 8 bytes)
+	huge := func() *peer.SenderScript {
+		list := &rp.FList{Entries: []rp.FEntry{
+			{Name: []byte("."), Len: 4096, Mtime: tm.Past, Mode: rp.SIFDIR | 0o755, TopDir: true},
+			{Name: []byte("huge-3g"), Len: 3 << 30, Mtime: tm.Past, Mode: rp.SIFREG | 0o644},
+			{Name: []byte("huge-5g"), Len: 5<<30 + 7, Mtime: tm.Past, Mode: rp.SIFREG | 0o644},
+			{Name: []byte("small"), Len: 11, Mtime: tm.Past, Mode: rp.SIFREG | 0o644},
+		}}
+		return &peer.SenderScript{List: list, Seed: 0x17, Data: map[int32][]byte{}, StatsSize: 8<<30 + 4096 + 18}
+	}
+	shapes = append(shapes, c17Shape{name: "listing-64bit", list: true, script: huge, totalSize: 8<<30 + 4096 + 18})
 	return shapes
 }
+
+// c17LastSize: "total size" the client reported for the last session (worker-local), -1 if none.
+var c17LastSize int64
 
 // c17Session runs the real client against the scripted server with the given framing.
 func c17Session(sh c17Shape, pol framePolicy) (clientErr error, after tm.Tree, listing string, fr *framer, serveErr error) {
@@ -232,7 +248,12 @@ func c17Session(sh c17Shape, pol framePolicy) (clientErr error, after tm.Tree, l
 	// the listing goes to the client's stdout: capture it through os.Stdout replacement is not possible
 	// for the library client, so the listing shape is judged by success/failure and the absence of any file.
 	_ = stdout
-	_, clientErr = client.Run(context.Background(), &drive.RW{Reader: s2c, Writer: c2s}, paths)
+	var result *rsyncclient.Result
+	result, clientErr = client.Run(context.Background(), &drive.RW{Reader: s2c, Writer: c2s}, paths)
+	c17LastSize = -1
+	if result != nil && result.Stats != nil {
+		c17LastSize = result.Stats.Size
+	}
 	c2s.Close()
 	<-done
 	if !sh.list {
@@ -255,6 +276,9 @@ func c17Judge(sh c17Shape, pol framePolicy, clientErr error, after tm.Tree, fr *
 	}
 	if clientErr != nil {
 		return core.Fail("result_depends_on_framing", fmt.Sprintf("%s: client failed: %v (largest frame %d bytes)", pol, clientErr, fr.maxLen), ff...)
+	}
+	if sh.totalSize != 0 && c17LastSize != sh.totalSize {
+		return core.Fail("result_depends_on_framing", fmt.Sprintf("%s: the client reports a total size of %d, the server's statistics say %d", pol, c17LastSize, sh.totalSize), ff...)
 	}
 	if !sh.list {
 		if d := tm.Diff(sh.want, after, tm.Fields{}); len(d) > 0 {
@@ -282,7 +306,8 @@ func c17BuildReframe(tier string) core.Source {
 	}
 	var cases []cs
 	none := framePolicy{cutAt: -1, insertAt: -1}
-	for si, sh := range shapes[:2] {
+	for _, si := range []int{0, 1, 3} {
+		sh := shapes[si]
 		total := c17PayloadLen(sh)
 		chunk := 32
 		for lo := 0; lo <= total; lo += chunk {
